@@ -28,6 +28,10 @@ MANIFEST = {
 }
 
 
+# proof modules about the specification, checked by tlapm on every run (started by the driver next to leg A)
+TLAPS = [('FluxLoopProofs.tla', ['FluxLoopAbstract.tla']), ('FluxSolverProofs.tla', ['FluxSolverCore.tla'])]
+
+
 def leg_a(ctx):
     return [
         {"spec": "MC_FluxLoopAbstract.tla", "cfg": "MC_FluxLoopAbstract.cfg", "coverage": True, "workers": 1,
@@ -155,7 +159,6 @@ def run(ctx, pool):
     res["coverage"]["iterations_observable"] = hist.get("Eval", 0) > 0
     res["failures"] = failures
     res["trace_lookup"] = lambda v: tw.traces[v["record"]["t"]][:6] + tw.traces[v["record"]["t"]][-3:]
-    core.attach_tlaps(ctx, res, [('FluxLoopProofs.tla', ['FluxLoopAbstract.tla']), ('FluxSolverProofs.tla', ['FluxSolverCore.tla'])])
     return res
 
 
